@@ -447,6 +447,70 @@ theorem C03_freed_name_reusable (h : List HOp) (rm : Op) (n : Name)
     show (addVariable n v (step s rm).1).2 = .ok ()
     rw [h2]
 
+/-! ## one name space, operationally -/
+
+/-- A name that is taken — by a component of ANY kind, or as a surrogate output — is refused by the `add_*` of EVERY
+    kind with `NameError` (so, by `C03_rejected_is_noop`, nothing changes). -/
+theorem C03_taken_name_rejected (h : List HOp) (n : Name) (hn : n ∈ omKeys (run init h).ids) :
+    (∀ v, (step (run init h) (.add_parameter n v)).2 = .error (.nameError n)) ∧
+    (∀ v, (step (run init h) (.add_variable n v)).2 = .error (.nameError n)) ∧
+    (∀ f, (step (run init h) (.add_derived n f)).2 = .error (.nameError n)) ∧
+    (∀ r, (step (run init h) (.add_reaction n r)).2 = .error (.nameError n)) ∧
+    (∀ f, (step (run init h) (.add_readout n f)).2 = .error (.nameError n)) ∧
+    (∀ v, (step (run init h) (.add_data n v)).2 = .error (.nameError n)) ∧
+    (∀ su, (step (run init h) (.add_surrogate n su)).2 = .error (.nameError n)) := by
+  have hs := C03_ids_exact h
+  generalize run init h = s at *
+  have hnt := ne_time_of_mem_ids hs hn
+  have key : ∀ {β} (m) (hm : Gen.idOrder m = .idFirst) (L : Lens β) (k) (v : β),
+      (addG m L k n v (inval m s)).2 = .error (.nameError n) := by
+    intro β m hm L k v
+    rw [addG_closed hm]
+    simp [hnt, inval_ids, hn]
+  refine ⟨fun v => key _ (table_add_order _ (by simp)) parsL _ v,
+          fun v => key _ (table_add_order _ (by simp)) varsL _ v,
+          fun f => key _ (table_add_order _ (by simp)) derivedL _ f,
+          fun r => key _ (table_add_order _ (by simp)) rxnsL _ r,
+          fun f => key _ (table_add_order _ (by simp)) readoutsL _ f,
+          fun v => key _ (table_add_order _ (by simp)) dataL _ v, fun su => ?_⟩
+  show (addSurrogate n su s).2 = _
+  unfold addSurrogate
+  simp [table_add_surrogate_checks, checkNewIds, hnt, inval_ids, hn, fail]
+
+/-- …and a freed name can be used again for a component of EVERY kind (parameters and variables:
+    `C03_freed_name_reusable`): derived quantity, reaction, readout, data set, and surrogate (with outputs that are
+    free themselves). -/
+theorem C03_freed_name_any_kind (h : List HOp) (rm : Op) (n : Name)
+    (hrm : rm = .remove_parameter n ∨ rm = .remove_variable n true ∨ rm = .remove_variable n false ∨
+      rm = .remove_derived n ∨ rm = .remove_reaction n ∨ rm = .remove_readout n ∨ rm = .remove_data n ∨
+      rm = .remove_surrogate n)
+    (hok : (step (run init h) rm).2 = .ok ()) :
+    (∀ f, (step (step (run init h) rm).1 (.add_derived n f)).2 = .ok ()) ∧
+    (∀ r, (step (step (run init h) rm).1 (.add_reaction n r)).2 = .ok ()) ∧
+    (∀ f, (step (step (run init h) rm).1 (.add_readout n f)).2 = .ok ()) ∧
+    (∀ v, (step (step (run init h) rm).1 (.add_data n v)).2 = .ok ()) ∧
+    (∀ su, (∀ x ∈ su.outs, x ≠ "time" ∧ x ≠ n ∧ x ∉ omKeys (step (run init h) rm).1.ids) → su.outs.Nodup →
+      (step (step (run init h) rm).1 (.add_surrogate n su)).2 = .ok ()) := by
+  obtain ⟨hnt, hnot, _⟩ := C03_freed_name_reusable h rm n hrm hok
+  have hs' : Exact (step (run init h) rm).1 := step_exact _ rm (C03_ids_exact h)
+  generalize (step (run init h) rm).1 = s at *
+  have cc0 : ∀ x, x ∉ omKeys s.ids → cc s x = 0 := by
+    intro x hx
+    have := hs'.1 x
+    have h0 : idc s x = 0 := List.count_eq_zero.mpr hx
+    omega
+  refine ⟨fun f => (addG_ok_content (table_add_order .add_derived (by simp)) derivedL_law _ n f hs' hnt (cc0 n hnot)).1,
+          fun r => (addG_ok_content (table_add_order .add_reaction (by simp)) rxnsL_law _ n r hs' hnt (cc0 n hnot)).1,
+          fun f => (addG_ok_content (table_add_order .add_readout (by simp)) readoutsL_law _ n f hs' hnt (cc0 n hnot)).1,
+          fun v => (addG_ok_content (table_add_order .add_data (by simp)) dataL_law _ n v hs' hnt (cc0 n hnot)).1,
+          fun su hout hnd => ?_⟩
+  refine (addSurrogate_ok_content n su hs' ?_ ?_).1
+  · intro x hx
+    rcases List.mem_cons.mp hx with rfl | hx
+    · exact ⟨hnt, cc0 _ hnot⟩
+    · exact ⟨(hout x hx).1, cc0 x (hout x hx).2.2⟩
+  · exact List.nodup_cons.mpr ⟨fun hm => (hout n hm).2.1 rfl, hnd⟩
+
 /-! ## the future depends on the content only; a rejected edit cannot be seen, now or later -/
 
 /-- Two histories that end with the same content (and the same function objects) answer EVERY query alike —
